@@ -16,7 +16,10 @@ TITLE = "Character-escape decodings (XML refs, chr(), unescape(), UTF-16) are ex
 
 XML_MENU = [b"&#65;", b"&#x4a;", b"&#0;", b"&#255;", b"&#xzz;", b"&#256;", b"x", b"&#10;"]
 XML_FAM = Family("c14-xml", [m.decode("latin-1") for m in XML_MENU], {"quick": 6, "thorough": 7})
-UNESC_FAM = Family("c14-unescape", ["%41", "%zz", "%", "%u0041", "+", "a", "%e9", "%0", "%00", "\\", "%2F", "\"", " ", ")", "("], {"quick": 4, "thorough": 5},
+# self-similar runs: references whose decoded bytes spell references again ('&', '#', 'x', digits, ';' in both notations)
+XML_SELF = [b"&#x26;", b"&#38;", b"&#x23;", b"&#35;", b"&#x39;", b"&#57;", b"&#x3b;", b"&#59;", b"&#x78;", b"&#120;"]
+XML_SELF_FAM = Family("c14-xml-self", [m.decode("latin-1") for m in XML_SELF], {"quick": 5, "thorough": 6})
+UNESC_FAM = Family("c14-unescape", ["%41", "%zz", "%", "%u0041", "+", "a", "%e9", "%0", "%00", "\\", "%2F", "\"", " ", ")", "(", "%25", "41"], {"quick": 4, "thorough": 5},
                    wraps=[(b"unescape('", b"')"), (b"x=unescape('", b"');y"), (b"unescape('", b"') unescape('%42')")])
 U16_FAM = Family("c14-utf16", ["a\x00", "\xe9\x00", "\x00\x00", "\x7f\x00", "\x1f\x00", "\xff\x00", "\x09\x00", "a", "\x00",
                                "h\x00t\x00t\x00p\x00:\x00/\x00/\x00"], {"quick": 7, "thorough": 8})
@@ -43,7 +46,7 @@ def describe(tier):
         "rule": (
             "XML: (a) every string of <= %d tokens over %s and (b) every reference of the full set (decimal 0..299 with 0-3 leading zeros, every "
             "2-digit hex in both cases, 10 malformed forms; %d references) in first, middle and last position of a run of 5 and of 6 built from "
-            "a 3-reference menu -- find_xml_hex's complete result list is compared with a regex-free reference (maximal runs of >= 5 valid references). "
+            "a 3-reference menu, and (c) every string of <= L tokens over the self-similar menu (references to '&', '#', 'x', '9', ';' in decimal and hex: runs whose decoding spells references again) -- find_xml_hex's complete result list is compared with a regex-free reference (maximal runs of >= 5 valid references). "
             "chr: chr/ChrW/chrb(n) for EVERY n in 0..99999 x 0-2 leading zeros against an own UTF-8 encoder (unencodable => no result). "
             "unescape: every string of <= %d tokens over the escape alphabet inside unescape('...') x 3 embeddings, and every single %%XX (256 x 2 cases), "
             "against an own percent decoder. UTF-16: every string of <= %d tokens over %d byte-pair tokens, and every Latin-1 code unit 0..255 at "
@@ -53,7 +56,7 @@ def describe(tier):
             "transitions = result nodes compared, traces = decoder calls compared. Non-trivial = input where the reference expects a result."
             % (XML_FAM.L[tier], [m.decode() for m in XML_MENU], len(xml_full_set()), UNESC_FAM.L[tier], U16_FAM.L[tier], len(U16_FAM.tokens))
         ),
-        "bounds": {"xml": XML_FAM.describe(tier), "unescape": UNESC_FAM.describe(tier), "utf16": U16_FAM.describe(tier), "chr": "0..99999 x 3 spellings x 3 zero paddings"},
+        "bounds": {"xml": XML_FAM.describe(tier), "xml_self_similar": XML_SELF_FAM.describe(tier), "unescape": UNESC_FAM.describe(tier), "utf16": U16_FAM.describe(tier), "chr": "0..99999 x 3 spellings x 3 zero paddings"},
         "assumptions": ["decimal references are at most 3 digits (leading zeros included), as the statement's 'decimal 0-255'",
                         "UTF-16 runs joined by NUL NUL separators (wide-string lists) are outside the statement; only the forward relation is checked for them"],
         "exhaustive": True,
@@ -62,6 +65,7 @@ def describe(tier):
 
 def plan(tier, seed):
     units = [("xml", tier, u[2]) for u in XML_FAM.units(tier)]
+    units += [("xmlself", tier, u[2]) for u in XML_SELF_FAM.units(tier)]
     units += [("xmlfull", i, 16) for i in range(16)]
     units += [("chr", i, 16) for i in range(16)]
     units += [("unesc", tier, u[2]) for u in UNESC_FAM.units(tier)] + [("unesc256",)]
@@ -218,6 +222,11 @@ def run_unit(unit, rec):
             rec.mark("states", s, unique)
             run_xml(rec, s)
         rec.sample({"family": "xml-tokens", "last": s})
+    elif kind == "xmlself":
+        for level, s, unique in XML_SELF_FAM.states(unit[1], unit[2]):
+            rec.mark("states", s, unique)
+            run_xml(rec, s)
+        rec.sample({"family": "xml-self-similar", "last": s})
     elif kind == "xmlfull":
         full = xml_full_set()
         menu = [b"&#65;", b"&#x4a;", b"&#0;"]
